@@ -42,6 +42,7 @@ package transport
 //@   ensures [pkt] err == nil ==> pkt != nil && typecode(pkt) != 0 && as(pkt, *packet.Publish) != nil
 //@   ensures [publish] err == nil && istype(pkt, *packet.Publish) ==> as(pkt, *packet.Publish).Message.QOS <= 2 && (as(pkt, *packet.Publish).Message.QOS > 0 ==> as(pkt, *packet.Publish).ID != 0)
 //@   ensures [id] err == nil && hasID(pkt) && !istype(pkt, *packet.Publish) ==> idOf(pkt) != 0
+//@   ensures [new-object] err == nil ==> !storedobj[as(pkt, *packet.Publish)]
 //@   ensures [fail] err != nil ==> pkt == nil
 //@   modifies nothing
 //@ interface Conn.Close() (err error)
